@@ -63,6 +63,7 @@ pub fn dump<A: App>(w: &World<A>) -> String {
             Rec::Timer { t, node, ch } => out += &format!("{:>12?} TIMER node{node} ch={}\n", t, ch.0),
             Rec::Event { t, node, ch, ev } => out += &format!("{:>12?} EVENT node{node} ch={} {ev}\n", t, ch.0),
             Rec::Drained { t, node, ch } => out += &format!("{:>12?} DRAINED node{node} ch={}\n", t, ch.0),
+            Rec::NextTimeout { t, node, ch, at } => out += &format!("{:>12?} NEXT-TIMEOUT node{node} ch={} {:?}\n", t, ch.0, at),
         }
     }
     out
